@@ -1,8 +1,32 @@
 (* C07  Expression trees follow the C/C++ operator grammar: property statements only. *)
 From Coq Require Import List NArith Bool.
-From CV Require Import Ast.Defs.
+From CV Require Import Ast.Defs Ast.Main1.
 Import ListNotations.
 Local Open Scope N_scope.
+
+(* PARTIAL (stage 1 of the precedence-climbing proof).  Fragment [frag1]: identifiers, numbers, explicit
+   parentheses and all binary operators of the 11 left-associative levels
+   ( * / %   + -   << >>   <=>   < <= > >=   == !=   &   ^   |   &&   || ).
+   For every such expression, in C and in C++ mode, the model of prepareTernaryOpForAST + createAst's ladder,
+   run on the minimally parenthesised rendering, consumes all tokens and leaves exactly the tree that the
+   ISO operator table assigns.  [decl_like] excludes the declaration-like token patterns of compileTerm
+   (skipDecl; "X ) ( name ) =") - with them the statement is false, see C07_parse_render_refuted.
+   Missing for the full language [expr]: assignment, ?:, comma, prefix and postfix operators, calls,
+   subscripts, member access (modelled and exercised by the correspondence run, not yet proved). *)
+Theorem C07_parse_render_partial :
+  forall (cpp : bool) (e : expr),
+    frag1 e = true -> decl_like (render e) = false ->
+    parse cpp (render e) = Some (tree_of e).
+Proof. exact parse_render_stage1. Qed.
+Print Assumptions C07_parse_render_partial.
+
+(* the premises are inhabited:  a + b * ( c - 1 ) << d *)
+Example C07_partial_premises :
+  let e := canon (EBin 0 BShl (EBin 0 BAdd (EId 0 0) (EBin 0 BMul (EId 0 1) (EPar 0 (EBin 0 BSub (EId 0 2) (ENum 0 1)))))
+                    (EId 0 3)) in
+  frag1 e = true /\ decl_like (render e) = false /\ wf e = true /\
+  parse true (render e) = Some (tree_of e).
+Proof. vm_compute. repeat split; reflexivity. Qed.
 
 (* r = d + ( a * f ( b , c ) )   with every identifier a declared variable (f: a function pointer) *)
 Definition skipdecl_witness : expr :=
